@@ -610,6 +610,12 @@ GENERATED_HEADERS = [
     ("at-detached", "// @generated by foo\n\n", False),
     ("gen-in-block", "/*\n// Code generated by x. DO NOT EDIT.\n*/\n\n", True),
     ("gen-with-buildtag", "//go:build linux\n\n// Code generated by x. DO NOT EDIT.\n\n", True),
+    # the tag is looked for as a substring of the package comment: it may touch the comment delimiters or punctuation
+    ("at-block-tight", "/*@generated by x*/\n", True),
+    ("at-block-end", "/* Package doc. @generated*/\n", True),
+    ("at-punct", "// Package doc.\n// This file is @generated.\n", True),
+    ("at-inside-word", "// Package doc x@generatedy.\n", True),
+    ("at-tight-line", "//@generated\n", True),
     ("plain", "", False),
 ]
 
